@@ -92,6 +92,38 @@ theorem alignItem_self (x : GenItem) : alignItem x x = x := by
   | trait t => rfl
   | raw ts => rfl
 
+/-- names of the macro's own binders: nothing is renamed where the real item has the model's binders -/
+theorem binderAt_self (n : String) : ∀ ps : List GParam, binderAt n ps ps = none
+  | [] => rfl
+  | .ty a m bs bt d :: ps => by
+      by_cases h : m = n
+      · simp [binderAt, h]
+      · have : (m == n) = false := by simpa using h
+        simp [binderAt, this, binderAt_self n ps]
+  | .lt a m bs bt :: ps => by simp [binderAt, binderAt_self n ps]
+  | .const_ a m t d :: ps => by simp [binderAt, binderAt_self n ps]
+
+theorem argBinderAt_self (n : String) : ∀ xs : List FnArg, argBinderAt n xs xs = none
+  | [] => rfl
+  | .recv a r m c :: xs => by simp [argBinderAt, argBinderAt_self n xs]
+  | .typed a (.ident r m nm sub) ty :: xs => by
+      by_cases h : nm = n
+      · simp [argBinderAt, h]
+      · have : (nm == n) = false := by simpa using h
+        simp [argBinderAt, this, argBinderAt_self n xs]
+  | .typed a (.other ts bs) ty :: xs => by simp [argBinderAt, argBinderAt_self n xs]
+
+theorem renameMemberToward_self (g : GenMember) : renameMemberToward g g = g := by
+  cases g with
+  | fn a s b => simp [renameMemberToward, argBinderAt_self]
+  | raw ts => rfl
+
+theorem renameItemToward_self (x : GenItem) : renameItemToward x x = x := by
+  cases x with
+  | impl im => simp [renameItemToward, renameImplToward, binderAt_self, zipAlign_self _ renameMemberToward_self]
+  | trait t => simp [renameItemToward, renameTraitToward, binderAt_self, zipAlign_self _ renameMemberToward_self]
+  | raw ts => rfl
+
 /-- the macro's own inert attributes: nothing is removed when none is owned (every run on the unchanged tree) -/
 theorem stripOwned_nil (r : Wire.Real) : stripOwned [] r = r := by
   simp [stripOwned]
